@@ -1,6 +1,7 @@
 """C13 — expression typing (structural clauses)."""
 from checks.common import Ctx
 from sa.report import Check
+from sa.rules import flow_rules as FLW
 from sa.rules import resolve_rules as RR
 from sa.rules import dispatch as D
 from sa.rules import pipeline as P
@@ -39,4 +40,7 @@ def main(tier):
     chk.run("R-VALIDATORS", P.validators, r, floor=40)
     chk.run("R-PATHEND", RR.pathend, cx.repo, floor=1, modules=("compiler/front_end/type_check.py",))
     chk.run("R-REFKIND", RR.refkind, cx.repo, cx.schema, floor=2, modules=("compiler/front_end/type_check.py",))
+    chk.run("R-TYPEANNOT", FLW.typeannot, cx.repo, floor=14)
+    chk.run("R-ONEOFGUARD", RR.oneofguard, cx.repo, floor=3, modules=("compiler/front_end/type_check.py",))
+    chk.run("R-CANONNAME", RR.canonname, cx.repo, floor=1)
     return chk.finish()
